@@ -22,9 +22,9 @@ CLAIMED = {
              note="Trusted: truth-table model, vtree leaf sets read through the public VTree API. The library's is_compressed/is_trimmed are evaluated as a cross-check only (disagreements are counted, not reported)."),
  "C10": dict(section="5 C10", text="Seeded simulation of query histories: 1-4 logical callers interleave queries of different result types (eight semirings, evaluate, node count, (cached) semantic hash, bdd_fold, marginal MAP / MEU / branch-and-bound, smooth, condition) over BDD, SDD and top-down diagrams that share nodes, sub-diagrams and complements; each answer must equal the answer on a freshly built copy in a brand-new builder, and after every public call every scratch slot of every node in the builder (not only the roots) must be empty. Sampling evidence.",
              note="Trusted: the fresh-copy construction (Shannon expansion from the truth table; recompilation of the same CNF for top-down), exact weights. The oracle does not judge correctness of the fresh answer."),
- "C11": dict(section="5 C11", text="Seeded simulation in which one operation history is executed in lock-step on seven builders (two BDD orders, compressed and uncompressed SDDs under two vtrees, a hash-identified SDD builder, a standard and a hash-identified top-down builder under two decision orders): every result's semantic hash under the three exported 32/64-bit primes must equal the defining sum over the models of the function the diagram denotes (library's public weight map), negations hash to 1-h, cached hashes requested at random points of the history equal recomputation, and the hash-identified builders must return the function the operation names and report eq for equal functions. Tiny tables, cache forgetting and early growth are injected. Sampling evidence.",
+ "C11": dict(section="5 C11", text="Seeded simulation in which one operation history is executed in lock-step on seven builders (two BDD orders, compressed and uncompressed SDDs under two vtrees, a hash-identified SDD builder, a standard and a hash-identified top-down builder under two decision orders): every result's semantic hash under the three exported 32/64-bit primes must equal the defining sum over the models of the function the diagram denotes (library's public weight map), negations hash to 1-h, cached hashes requested at random points of the history equal recomputation, and the hash-identified builders must return the function the operation names and report eq for equal functions, and at end of run no two stored nodes of a hash-identified builder may denote the same or complementary function; the unique table's identity-by-hash mode (get_or_insert_by_hash(..,true)/get_by_hash) is also driven directly with simulator-chosen hashes. Tiny tables, cache forgetting and early growth are injected. Sampling evidence.",
              note="Trusted: truth-table model, defining-sum implementation (128-bit modular arithmetic), diagram readers. Only equal-function => equal-hash is asserted. <= 6 variables."),
- "C18": dict(section="5 C18", text="Seeded simulation of C-API call sequences against the real extern \"C\" symbols (linked from the rlib) with a native RobddBuilder twin receiving the corresponding Rust calls: same truth table and canonical structure for every result, same eq / predicates / top variable / children, same node and model counts, bit-identical real / complex / polynomial weighted counts with weight tables built and read back through the C setters/getters, same JSON and debug strings. Panics inside extern \"C\" abort the process; the supervisor isolates and reports the run. Sampling evidence.",
+ "C18": dict(section="5 C18", text="Seeded simulation of C-API call sequences against the real extern \"C\" symbols (linked from the rlib) with a native RobddBuilder twin receiving the corresponding Rust calls: same truth table and canonical structure for every result, same eq / predicates / top variable / children, same node and model counts, bit-identical real / complex / polynomial weighted counts with weight tables built and read back through the C setters/getters, same JSON and debug strings; the cnf_from_dimacs -> min-fill order -> dtree -> vtree -> SDD compile/count and top-down compile/count pipeline is compared stage by stage with the native sequence. Panics inside extern \"C\" abort the process; the supervisor isolates and reports the run. Sampling evidence.",
              note="Trusted: the twin construction (which native call corresponds to which C function), truth-table model. The harness dereferences the boxed BddPtr results to read the diagrams."),
 }
 
